@@ -413,10 +413,57 @@ def sample_validation(run, prop):
                 break
 
 
+RARE_LINES = [
+    # (bytes column, mnemonic, operand text) - real objdump 2.40 output shapes that random sampling seldom draws
+    ("0f", "cmpxchg8b", "(bad)"),
+    ("62 e1 7f 29 7f 07", "vmovdqu8", "%ymm16,(%rdi){%k1}"),
+    ("62 f1 74 58 58 50 10", "vaddps", "0x40(%rax){1to16},%zmm1,%zmm2"),
+    ("62 f1 7c 4a 11 44 98", "vmovups", "%zmm0,0x40(%rax,%rbx,4){%k2}"),
+    ("62 f1 7c c9 28 c1", "vmovaps", "%zmm1,%zmm0{%k1}{z}"),
+    ("65 ff 94 d8 10 00 00", "call", "*%gs:0x10(%rax,%rbx,8)"),
+    ("2e ff 22", "jmp", "*%cs:(%bp,%si)"),
+    ("64 48 8b 04 25 28 00", "mov", "%fs:0x28,%rax"),
+    ("64 8b 04 d0", "mov", "%fs:(%rax,%rdx,8),%eax"),
+    ("48 8d 14 c5 00 00 00", "lea", "0x0(,%rax,8),%rdx"),
+    ("89 0c 9d fc ff ff ff", "mov", "%ecx,-0x4(,%rbx,4)"),
+    ("4d 8b 40 08", "mov", "0x8(%r8),%r8"),
+    ("4a 8d 04 88", "lea", "(%rax,%r9,4),%rax"),
+    ("48 8d 04 40", "lea", "(%rax,%rax,2),%rax"),
+    ("67 8b 00", "mov", "(%bx,%si),%eax"),
+    ("66 8b 40 10", "mov", "0x10(%bx,%si),%ax"),
+    ("68 10 20 40 00", "push", "$0x402010"),
+    ("c2 08 00", "ret", "$0x8"),
+    ("ff 24 c5 00 10 40 00", "jmp", "*0x401000(,%rax,8)"),
+    ("c8 10 00 01", "enter", "$0x10,$0x1"),
+    ("f3 0f 1e fa", "endbr64", ""),
+    ("c3", "ret", ""),
+    ("c9", "leave", ""),
+]
+
+
+def rare_shape_battery(run, prop):
+    """A fixed battery of rare but real objdump line shapes (AVX-512 decorations, segment overrides with base/index, base-less
+    scaled index, r8-r15, 16-bit pairs, '(bad)' as operand, operand-less lines with and without trailing blanks): address and
+    mnemonic come out, operands are the reference normal form, no field contains a stream separator, nothing raises."""
+    for i, (raw, m, ops) in enumerate(RARE_LINES):
+        a = format(0x401000 + 8 * i, "x")
+        for pad in (("", "   ") if not ops else ("",)):
+            line = f"  {a}:\t{raw:<21}\t{(m + ' ').ljust(7) + ops if ops else m + pad}"
+            got = real_parse(line)
+            want_ops = [reference_normal_form(o) for o in split_top_level(ops)] if ops else []
+            run.count("traces_validated_against_impl")
+            ok = got[0] == "INS" and got[1] == a and got[2] == m and (prop == "C16" or got[3] == want_ops)
+            sepfree = got[0] != "INS" or not any(x in fld for fld in [got[1], got[2]] + list(got[3]) for x in (",", "|", "::"))
+            if not ok or (prop == "C10" and not sepfree):
+                run.count("disagreements_replayed")
+                run.failure(f"rare_shape/{m}/{i}", f"line {line!r}: expected addr={a!r} mnemonic={m!r} operands={want_ops}, real parse -> {got}", {"kind": "lx", "line": line, "segs": None, "lemma": "RARE"})
+
+
 def main_for(prop):
     run = Run(prop, "model_checking", "LX")
     t, sd = tier(), seed()
     sample_validation(run, prop)
+    rare_shape_battery(run, prop)
     if prop in ("C08", "C16"):
         data16_probe(run)      # independent of the encoding of the cascade
     try:
